@@ -193,6 +193,7 @@ def install(spec: Spec):
     spec.interference['default'] = Interference('default', havoc=['*'], keep=['name', 'id', 'event_id', 'event_type', 'handler_id', '__name__', '__self__', '__class__',
                                                                                  'max_history_size', 'parallel_handlers', 'wal_path', 'q_maxsize', 'g$loop_running', 'g$current_loop', '_depth'],
                                                  rely=[('queue_identity_stable', 'implies(old(self.event_queue) is not None, self.event_queue is old(self.event_queue) and self._on_idle is old(self._on_idle))', []),
+                                                       ('shutdown_is_final', "forall(lambda q: implies(old(q._is_shutdown), q._is_shutdown), 'CleanShutdownQueue')", []),
                                                        ('global_lock_is_a_singleton', 'implies(old(_global_eventbus_lock) is not None, _global_eventbus_lock is old(_global_eventbus_lock))', [])])
     spec.interference['none'] = Interference('none')
     # queue accounting (A5) as an assume-guarantee invariant: every task keeps, at its own suspension points,
@@ -663,3 +664,59 @@ def install(spec: Spec):
                           ('first_match_wins', 'implies(old(future.fut_done), future.fut_done and future.fut_result is old(future.fut_result))', ['C18'])],
             ensures=[('resolves_with_first_match', 'implies(not old(future.fut_done) and holds(include, event) and not holds(exclude, event), future.fut_done and future.fut_result is event)', ['C18'])],
             raises=[RaisesClause('Exception', label='predicate_raised', origin='user:', tags=['C18'])])
+
+    # ------------------------------------------------------------------ wait_until_idle / stop (C15 C16)
+    def bounded_wait_pre(ex, n):
+        # C16: when the caller gave a timeout, every wait inside is bounded by a (remaining) timeout
+        from pyvc.models import kw as _kw
+        t = _kw(n, 'timeout')
+        tv = ex.eval(t) if t is not None else mk_none()
+        given = ex.lookup('timeout')
+        bounded = z3.BoolVal(True) if tv.ty.kind != 'obj' else tv.term != NONE
+        ex.oblige('callsite:asyncio.wait_for/requires', 'bounded_when_timeout_given', z3.Or(given.term == NONE, bounded) if given.ty.kind == 'obj' else bounded, ['C16'])
+
+    spec.builtins['asyncio.get_event_loop'] = spec.builtins['asyncio.get_running_loop']
+    IDLE_AT_RETURN = 'self._on_idle is not None and self._on_idle.ev_set and not self.events_started and not self.events_pending'
+    spec.fn('EventBus.wait_until_idle', file=S, qual='EventBus.wait_until_idle', is_async=True, interference='default', cancel_must_propagate=True,
+            params={'self': 'EventBus', 'timeout': 'opt[real]'}, returns='NoneType',
+            requires=[('in_loop', 'loop_running()', []), ('bus_invariant', BUS_INV, [])],
+            modifies=[('event_queue', 'self'), ('_on_idle', 'self'), ('_runloop_task', 'self'), ('_is_running', 'self'), ('ev_set', '*'), ('task_done', '*'), ('g$clock', '*'),
+                      ('q_items', '*'), ('q_unfinished', '*'), ('q_maxsize', '*'), ('_is_shutdown', '*'), ('task_cancel_requested', '*')],
+            callsites={'asyncio.wait_for': {'pre': bounded_wait_pre}},
+            loops={0: {'inv': [('no_timeout_no_deadline', 'implies(timeout is None, remaining_timeout is None)', ['C15']),
+                               ('deadline_kept', 'implies(timeout is not None, remaining_timeout is not None)', ['C16']),
+                               ('started', 'self._on_idle is not None and self.event_queue is not None', [])]}},
+            exits_ensure=[('queue_kept', 'implies(old(self.event_queue) is not None, self.event_queue is old(self.event_queue) and self._on_idle is old(self._on_idle))', ['C15'])],
+            ensures=[('idle_at_return', 'implies(timeout is None, ' + IDLE_AT_RETURN + ')', ['C15'])],
+            raises=[RaisesClause('CancelledError', label='cancelled', tags=['C16'])])
+    spec.methods[('EventBus', 'wait_until_idle')] = 'EventBus.wait_until_idle'
+
+    spec.fn('CleanShutdownQueue.shutdown', file=S, qual='CleanShutdownQueue.shutdown', trusted=True, params={'self': 'CleanShutdownQueue', 'immediate': 'bool'}, returns='NoneType',
+            modifies=[('_is_shutdown', 'self')], ensures=[('shut', 'self._is_shutdown', ['C16'])], allocates=False,
+            notes='sets the shutdown flag and fails the futures of blocked getters/putters with QueueShutDown (asyncio.Queue internals); assumed')
+    spec.methods[('CleanShutdownQueue', 'shutdown')] = 'CleanShutdownQueue.shutdown'
+    spec.fn('EventBus._check_total_memory_usage', file=S, qual='EventBus._check_total_memory_usage', trusted=True, params={'self': 'EventBus'}, returns='NoneType',
+            raises=[RaisesClause('Exception', label='diagnostic_failed')], allocates=False,
+            notes='diagnostic (sizes of histories and queues, a warning above 50 MB); reads only; may raise, every caller catches Exception')
+    spec.methods[('EventBus', '_check_total_memory_usage')] = 'EventBus._check_total_memory_usage'
+    spec.builtins['py:weakset.discard'] = null_model
+    spec.builtins['py:weakset.add'] = null_model
+
+    def stop_wait_pre(ex, n):
+        from pyvc.models import kw as _kw
+        t = _kw(n, 'timeout')
+        tv = ex.eval(t) if t is not None else mk_none()
+        ex.oblige('callsite:%s/requires' % _ast.unparse(n.func), 'bounded_wait', z3.BoolVal(True) if tv.ty.kind != 'obj' else tv.term != NONE, ['C16'])
+
+    spec.fn('EventBus.stop', file=S, qual='EventBus.stop', is_async=True, interference='default', cancel_must_propagate=True,
+            params={'self': 'EventBus', 'timeout': 'opt[real]', 'clear': 'bool'}, returns='NoneType',
+            requires=[('in_loop', 'loop_running()', []), ('bus_invariant', BUS_INV, [])],
+            modifies=[('event_queue', 'self'), ('_on_idle', 'self'), ('_runloop_task', 'self'), ('_is_running', 'self'), ('ev_set', '*'), ('task_done', '*'), ('g$clock', '*'),
+                      ('q_items', '*'), ('q_unfinished', '*'), ('q_maxsize', '*'), ('_is_shutdown', '*'), ('task_cancel_requested', '*'), ('event_history', 'self'), ('handlers', 'self')],
+            callsites={'self.wait_until_idle': {'pre': stop_wait_pre}, 'asyncio.wait': {'pre': stop_wait_pre},
+                       'loop._eventbus_instances.discard': {'model': null_model}},
+            ensures=[('queue_shut_down', 'implies(old(self._is_running) and self.event_queue is not None, self.event_queue._is_shutdown)', ['C16']),
+                     ('idle_flag_raised', 'implies(old(self._is_running) and self._on_idle is not None, self._on_idle.ev_set)', ['C16']),
+                     ('task_forgotten', 'implies(old(self._is_running), self._runloop_task is None)', ['C16'])],
+            raises=[RaisesClause('CancelledError', label='cancelled', tags=['C16'])])
+    spec.methods[('EventBus', 'stop')] = 'EventBus.stop'
